@@ -1,6 +1,6 @@
 CONSTANTS
-  SeriesFirst = FALSE
-  CommitSeqBeforeWrite = TRUE
+  SeriesFirst = TRUE
+  CommitSeqBeforeWrite = FALSE
   FreezeBeforeMetaFlush = FALSE
   AtomicRound = FALSE
   Name = {"m1", "m2"}
@@ -8,5 +8,5 @@ CONSTANTS
   MaxCrash = 2
   MaxFlush = 3
 SPECIFICATION MCSpec
-INVARIANTS NoLoss
+INVARIANTS SeriesIndexed
 CHECK_DEADLOCK FALSE
